@@ -261,6 +261,7 @@ class Interp(LibMixin, CallMixin, StmtMixin, ExprMixin, InterpBase):
         if isinstance(c, Contract) and c.trusted:
             self.used_trusted.add(c.key)
         self.used_contracts.add(c.key)
+        self.st.mark_escaped(*bound.values())
         # visible-state semantics: class invariants of declared object parameters hold at call boundaries
         for nm, p in c.params.items():
             if p is not None and p.kind == "obj" and nm in bound and not (fi.name == "__init__" and nm == "self"):
